@@ -6,25 +6,60 @@ package core
 // verification). This file contains comments only; it is compiled only under
 // the build tag "verif" and adds no code.
 
-//@ smt (declare-fun matchSpec (Str Str Str Int Int Int (Array Int (Array Str Bool)) (Array Int (Array Str Int))) Bool)
+// matchSpec: verdict of an expression on an item, as a function of the table name, the expression text and kind,
+// the item's attributes, the expression attribute values and the name aliases (each a map content: domain, values)
+//@ smt (declare-fun matchSpec (Str Str Str (Array Str Bool) (Array Str Int) (Array Str Bool) (Array Str Int) (Array Str Bool) (Array Str Str)) Bool)
+//@ smt (declare-fun updSpecDom (Str Str (Array Str Bool) (Array Str Int) Int Int) (Array Str Bool))
+//@ smt (declare-fun updSpecVal (Str Str (Array Str Bool) (Array Str Int) Int Int) (Array Str Int))
 
 // ---- representation invariants -------------------------------------------------
 
+// TInv0: Data/SortedKeys agree (T1-T3), stored items are distinct allocated maps (T5)
 //@ pred TInv0(t *Table) :=
 //@   t != nil && t.Data != nil && allocated(t.Data) &&
 //@   sorted(t.SortedKeys) && bag(t.SortedKeys) == ind(dom(t.Data)) && allocated(t.SortedKeys) &&
 //@   (forall k string :: {t.Data[k]} k in t.Data ==> t.Data[k] != nil && allocated(t.Data[k])) &&
 //@   (forall k1 string, k2 string :: {t.Data[k1], t.Data[k2]} k1 in t.Data && k2 in t.Data && k1 != k2 ==> t.Data[k1] != t.Data[k2])
 
+// IWf: an index's sortedKeys is the sorted multiset of the values of refs (I1, I4)
+//@ pred IWf(i *index) :=
+//@   i != nil && i.refs != nil && allocated(i.refs) && allocated(i.sortedKeys) &&
+//@   sorted(i.sortedKeys) && bag(i.sortedKeys) == bagv(i.refs)
+
+// IK: the index key of the item stored under primary key pk ("" when the item lacks it or it is ill-typed)
+//@ pred IK(i *index, t *Table, pk string) := nth(i.keySchema.GetKey(t.AttributesDef, t.Data[pk]), 0)
+
+// IMirror: refs holds exactly the stored items that have an index key, with their current key (I2, I3)
+//@ pred IMirror(i *index, t *Table) :=
+//@   forall pk string :: {i.refs[pk]} {t.Data[pk]}
+//@     ((pk in i.refs) <==> (pk in t.Data && IK(i, t, pk) != "")) && (pk in i.refs ==> i.refs[pk] == IK(i, t, pk))
+
+//@ pred IMirrorExcept(i *index, t *Table, key string) :=
+//@   forall pk string :: {i.refs[pk]} {t.Data[pk]} pk != key ==>
+//@     ((pk in i.refs) <==> (pk in t.Data && IK(i, t, pk) != "")) && (pk in i.refs ==> i.refs[pk] == IK(i, t, pk))
+
+// IOwn: ownership - index objects, their refs maps and sortedKeys arrays are pairwise distinct and
+// distinct from the table's own storage (T6)
 //@ pred IOwn(t *Table) :=
-//@   t.Indexes != nil && allocated(t.Indexes) &&
+//@   t.Indexes != nil && allocated(t.Indexes) && allocated(t.AttributesDef) &&
 //@   (forall n string :: {t.Indexes[n]} n in t.Indexes ==>
 //@       t.Indexes[n] != nil && allocated(t.Indexes[n]) && t.Indexes[n].Table == t &&
 //@       t.Indexes[n].refs != nil && allocated(t.Indexes[n].refs) && allocated(t.Indexes[n].sortedKeys) &&
+//@       t.Indexes[n].refs != t.AttributesDef &&
 //@       arr(t.Indexes[n].sortedKeys) != arr(t.SortedKeys)) &&
 //@   (forall n1 string, n2 string :: {t.Indexes[n1], t.Indexes[n2]} n1 in t.Indexes && n2 in t.Indexes && n1 != n2 ==>
 //@       t.Indexes[n1] != t.Indexes[n2] && t.Indexes[n1].refs != t.Indexes[n2].refs &&
 //@       arr(t.Indexes[n1].sortedKeys) != arr(t.Indexes[n2].sortedKeys))
+
+//@ pred IAll(t *Table) :=
+//@   forall n string :: {t.Indexes[n]} n in t.Indexes ==> IWf(t.Indexes[n]) && IMirror(t.Indexes[n], t)
+
+//@ pred TInv(t *Table) := TInv0(t) && IOwn(t) && IAll(t)
+
+// CondHolds: the verdict of a write condition on the item stored under key k (an empty item if none);
+// the only item the verdict depends on is that one (C05)
+//@ pred CondHolds(t *Table, cond *string, values map[string]*types.Item, names map[string]string, k string) :=
+//@   matchSpec(t.Name, *cond, "conditional", (k in t.Data ? dom(t.Data[k]) : emptyset("string")), (k in t.Data ? vals(t.Data[k]) : emptyvals("map[string]*types.Item")), dom(values), vals(values), dom(names), vals(names))
 
 // ---- helpers -------------------------------------------------------------------
 
@@ -37,7 +72,7 @@ package core
 
 //@ func (*Table).getItem
 //@   ensures key in t.Data ==> result == t.Data[key]
-//@   ensures !(key in t.Data) ==> fresh(result) && len(result) == 0
+//@   ensures !(key in t.Data) ==> fresh(result) && len(result) == 0 && dom(result) == emptyset("string") && vals(result) == emptyvals("map[string]*types.Item")
 
 //@ func (*Table).setItem
 //@   requires TInv0(t) && item != nil && allocated(item)
@@ -51,13 +86,10 @@ package core
 //@ func keySchema.GetKey
 //@   pure
 
-//@ smt (declare-fun updSpecDom (Str Str (Array Str Bool) (Array Str Int) Int Int) (Array Str Bool))
-//@ smt (declare-fun updSpecVal (Str Str (Array Str Bool) (Array Str Int) Int Int) (Array Str Int))
-
-// updSpec depends on the attribute values only inside the item's domain (skolemised congruence)
-//@ smt (declare-fun updDiff ((Array Str Bool) (Array Str Int) (Array Str Int)) Str)
-//@ smt (assert (forall ((n Str) (e Str) (d (Array Str Bool)) (v1 (Array Str Int)) (v2 (Array Str Int)) (a Int) (al Int)) (! (or (= (updSpecDom n e d v1 a al) (updSpecDom n e d v2 a al)) (and (select d (updDiff d v1 v2)) (not (= (select v1 (updDiff d v1 v2)) (select v2 (updDiff d v1 v2)))))) :pattern ((updSpecDom n e d v1 a al) (updSpecDom n e d v2 a al)))))
-//@ smt (assert (forall ((n Str) (e Str) (d (Array Str Bool)) (v1 (Array Str Int)) (v2 (Array Str Int)) (a Int) (al Int)) (! (or (= (updSpecVal n e d v1 a al) (updSpecVal n e d v2 a al)) (and (select d (updDiff d v1 v2)) (not (= (select v1 (updDiff d v1 v2)) (select v2 (updDiff d v1 v2)))))) :pattern ((updSpecVal n e d v1 a al) (updSpecVal n e d v2 a al)))))
+//@ func (*Table).interpreterMatch
+//@   assumed
+//@   maypanic
+//@   ensures result == matchSpec(t.Name, input.Expression, input.ExpressionType, dom(input.Item), vals(input.Item), dom(input.Attributes), vals(input.Attributes), dom(input.Aliases), vals(input.Aliases))
 
 //@ func (*Table).interpreterUpdate
 //@   assumed
@@ -67,84 +99,87 @@ package core
 //@   ensures result == nil ==> dom(input.Item) == updSpecDom(input.TableName, input.Expression, old(dom(input.Item)), old(vals(input.Item)), input.Attributes, input.Aliases)
 //@   ensures result == nil ==> content(input.Item) == contentOf(updSpecDom(input.TableName, input.Expression, old(dom(input.Item)), old(vals(input.Item)), input.Attributes, input.Aliases), updSpecVal(input.TableName, input.Expression, old(dom(input.Item)), old(vals(input.Item)), input.Attributes, input.Aliases))
 
-//@ func (*Table).interpreterMatch
-//@   assumed
-//@   maypanic
-//@   ensures result == matchSpec(t.Name, input.Expression, input.ExpressionType, input.Item, input.Attributes, input.Aliases, domHeap(input.Item), valHeap(input.Item))
+// ---- secondary index maintenance ------------------------------------------------
 
-// ---- secondary index maintenance (frame level) -----------------------------------
+//@ func (*index).removeRef
+//@   requires IWf(i)
+//@   modifies i.refs[*], i.sortedKeys, i.sortedKeys[*]
+//@   ensures IWf(i)
+//@   ensures arr(i.sortedKeys) == old(arr(i.sortedKeys))
+//@   ensures[C03] dom(i.refs) == without(old(dom(i.refs)), key)
+//@   ensures[C03] forall k string :: {i.refs[k]} k != key ==> i.refs[k] == old(i.refs[k])
 
 //@ func (*index).putData
-//@   requires i != nil && i.refs != nil && allocated(i.refs) && allocated(i.sortedKeys) && i.Table != nil
+//@   requires IWf(i) && i.Table != nil && i.refs != i.Table.AttributesDef
 //@   modifies i.refs[*], i.sortedKeys, i.sortedKeys[*]
+//@   ensures IWf(i)
 //@   ensures arr(i.sortedKeys) == old(arr(i.sortedKeys)) || fresh(arr(i.sortedKeys))
-//@   ensures allocated(i.sortedKeys)
+//@   ensures (result == nil) == (nth(old(i.keySchema.GetKey(i.Table.AttributesDef, item)), 1) == nil)
+//@   ensures[C08] result != nil ==> content(i.refs) == old(content(i.refs)) && i.sortedKeys == old(i.sortedKeys) && seq(i.sortedKeys) == old(seq(i.sortedKeys))
+//@   ensures[C03] result == nil && nth(old(i.keySchema.GetKey(i.Table.AttributesDef, item)), 0) == "" ==> dom(i.refs) == without(old(dom(i.refs)), key)
+//@   ensures[C03] result == nil && nth(old(i.keySchema.GetKey(i.Table.AttributesDef, item)), 0) != "" ==>
+//@                dom(i.refs) == with(old(dom(i.refs)), key) && i.refs[key] == nth(old(i.keySchema.GetKey(i.Table.AttributesDef, item)), 0)
+//@   ensures[C03] forall k string :: {i.refs[k]} k != key ==> i.refs[k] == old(i.refs[k])
 
 //@ func (*index).updateData
-//@   requires i != nil && i.refs != nil && allocated(i.refs) && allocated(i.sortedKeys) && i.Table != nil
+//@   requires IWf(i) && i.Table != nil && i.refs != i.Table.AttributesDef
 //@   modifies i.refs[*], i.sortedKeys, i.sortedKeys[*]
+//@   ensures IWf(i)
 //@   ensures arr(i.sortedKeys) == old(arr(i.sortedKeys)) || fresh(arr(i.sortedKeys))
-//@   ensures allocated(i.sortedKeys)
+//@   ensures (result == nil) == (nth(old(i.keySchema.GetKey(i.Table.AttributesDef, item)), 1) == nil)
+//@   ensures[C08] result != nil ==> content(i.refs) == old(content(i.refs)) && i.sortedKeys == old(i.sortedKeys) && seq(i.sortedKeys) == old(seq(i.sortedKeys))
+//@   ensures[C03] result == nil && nth(old(i.keySchema.GetKey(i.Table.AttributesDef, item)), 0) == "" ==> dom(i.refs) == without(old(dom(i.refs)), key)
+//@   ensures[C03] result == nil && nth(old(i.keySchema.GetKey(i.Table.AttributesDef, item)), 0) != "" ==>
+//@                dom(i.refs) == with(old(dom(i.refs)), key) && i.refs[key] == nth(old(i.keySchema.GetKey(i.Table.AttributesDef, item)), 0)
+//@   ensures[C03] forall k string :: {i.refs[k]} k != key ==> i.refs[k] == old(i.refs[k])
 
 //@ func (*index).delete
-//@   requires i != nil && i.refs != nil && allocated(i.refs) && allocated(i.sortedKeys) && i.Table != nil
+//@   requires IWf(i) && i.Table != nil
 //@   modifies i.refs[*], i.sortedKeys, i.sortedKeys[*]
-//@   ensures arr(i.sortedKeys) == old(arr(i.sortedKeys)) || fresh(arr(i.sortedKeys))
-//@   ensures allocated(i.sortedKeys)
+//@   ensures IWf(i)
+//@   ensures arr(i.sortedKeys) == old(arr(i.sortedKeys))
+//@   ensures[C03] dom(i.refs) == without(old(dom(i.refs)), key)
+//@   ensures[C03] forall k string :: {i.refs[k]} k != key ==> i.refs[k] == old(i.refs[k])
 
 // ---- single-item operations -------------------------------------------------------
 
+//@ pred KeyOf(t *Table, item map[string]*types.Item) := nth(t.KeySchema.GetKey(t.AttributesDef, item), 0)
+
+//@ func (*Table).validateIndexKeys
+//@   requires t != nil && t.Indexes != nil && forall n string :: {t.Indexes[n]} n in t.Indexes ==> t.Indexes[n] != nil
+//@   ensures result == nil ==> forall n string :: {t.Indexes[n]} n in t.Indexes ==> nth(t.Indexes[n].keySchema.GetKey(t.AttributesDef, item), 1) == nil
+//@   loop 1:
+//@     invariant forall n string :: {t.Indexes[n]} n in visited ==> nth(t.Indexes[n].keySchema.GetKey(t.AttributesDef, item), 1) == nil
+
 //@ func (*Table).Put
-//@   requires TInv0(t) && IOwn(t) && input != nil && allocated(input) && allocated(input.Item)
+//@   requires TInv(t) && input != nil && allocated(input) && allocated(input.Item)
 //@   modifies t.SortedKeys, t.Data[*], t.SortedKeys[*],
 //@            forall n string :: n in t.Indexes ==> t.Indexes[n].refs[*],
 //@            forall n string :: n in t.Indexes ==> t.Indexes[n].sortedKeys,
 //@            forall n string :: n in t.Indexes ==> t.Indexes[n].sortedKeys[*]
-//@   ensures TInv0(t) && IOwn(t)
-//@   ensures[C01] result1 == nil ==> dom(t.Data) == with(old(dom(t.Data)), nth(old(t.KeySchema.GetKey(t.AttributesDef, input.Item)), 0))
-//@   ensures[C01] result1 == nil ==> fresh(t.Data[nth(old(t.KeySchema.GetKey(t.AttributesDef, input.Item)), 0)]) &&
-//@                content(t.Data[nth(old(t.KeySchema.GetKey(t.AttributesDef, input.Item)), 0)]) == old(content(input.Item))
-//@   ensures[C01] forall k string :: {t.Data[k]} k != nth(old(t.KeySchema.GetKey(t.AttributesDef, input.Item)), 0) ==> t.Data[k] == old(t.Data[k])
+//@   ensures[C01,C03] TInv(t)
+//@   ensures[C01] result1 == nil ==> dom(t.Data) == with(old(dom(t.Data)), old(KeyOf(t, input.Item)))
+//@   ensures[C01] result1 == nil ==> fresh(t.Data[old(KeyOf(t, input.Item))]) && content(t.Data[old(KeyOf(t, input.Item))]) == old(content(input.Item))
+//@   ensures[C01] forall k string :: {t.Data[k]} k != old(KeyOf(t, input.Item)) ==> t.Data[k] == old(t.Data[k])
+//@   ensures[C08] result1 != nil ==> dom(t.Data) == old(dom(t.Data)) && vals(t.Data) == old(vals(t.Data)) &&
+//@                t.SortedKeys == old(t.SortedKeys) && seq(t.SortedKeys) == old(seq(t.SortedKeys)) &&
+//@                forall n string :: {t.Indexes[n]} n in t.Indexes ==> content(t.Indexes[n].refs) == old(content(t.Indexes[n].refs)) &&
+//@                     t.Indexes[n].sortedKeys == old(t.Indexes[n].sortedKeys) && seq(t.Indexes[n].sortedKeys) == old(seq(t.Indexes[n].sortedKeys))
+//@   ensures[C13] nth(old(t.KeySchema.GetKey(t.AttributesDef, input.Item)), 1) != nil ==> result1 != nil
+//@   ensures[C05] input.ConditionExpression != nil && *input.ConditionExpression != "" && nth(old(t.KeySchema.GetKey(t.AttributesDef, input.Item)), 1) == nil &&
+//@                !old(CondHolds(t, input.ConditionExpression, input.ExpressionAttributeValues, input.ExpressionAttributeNames, KeyOf(t, input.Item))) ==>
+//@                result1 != nil && typeis(result1, "*mtypes.baseError") && result1.(*mtypes.baseError).code == "ConditionalCheckFailedException"
+//@   ensures[C05] input.ConditionExpression != nil && *input.ConditionExpression != "" && result1 == nil ==>
+//@                old(CondHolds(t, input.ConditionExpression, input.ExpressionAttributeValues, input.ExpressionAttributeNames, KeyOf(t, input.Item)))
+//@   aborts[C08] dom(t.Data) == old(dom(t.Data)) && vals(t.Data) == old(vals(t.Data)) && t.SortedKeys == old(t.SortedKeys) && seq(t.SortedKeys) == old(seq(t.SortedKeys))
 //@   loop 1:
 //@     invariant TInv0(t) && IOwn(t)
+//@     invariant old(KeyOf(t, input.Item)) in t.Data && t.Data[old(KeyOf(t, input.Item))] == item
 //@     invariant forall n string :: {t.Indexes[n]} n in t.Indexes ==> arr(t.Indexes[n].sortedKeys) == old(arr(t.Indexes[n].sortedKeys)) || fresh(arr(t.Indexes[n].sortedKeys))
-
-//@ func (*Table).Delete
-//@   requires TInv0(t) && IOwn(t) && input != nil && allocated(input) && allocated(input.Key)
-//@   modifies t.SortedKeys, t.Data[*], t.SortedKeys[*],
-//@            forall n string :: n in t.Indexes ==> t.Indexes[n].refs[*],
-//@            forall n string :: n in t.Indexes ==> t.Indexes[n].sortedKeys,
-//@            forall n string :: n in t.Indexes ==> t.Indexes[n].sortedKeys[*]
-//@   ensures TInv0(t) && IOwn(t)
-//@   ensures[C01] result1 == nil && !(nth(old(t.KeySchema.GetKey(t.AttributesDef, input.Key)), 0) in old(dom(t.Data))) ==>
-//@                dom(t.Data) == old(dom(t.Data)) && len(result0) == 0
-//@   ensures[C01] result1 == nil && nth(old(t.KeySchema.GetKey(t.AttributesDef, input.Key)), 0) in old(dom(t.Data)) ==>
-//@                dom(t.Data) == without(old(dom(t.Data)), nth(old(t.KeySchema.GetKey(t.AttributesDef, input.Key)), 0)) &&
-//@                fresh(result0) && content(result0) == old(content(t.Data[nth(t.KeySchema.GetKey(t.AttributesDef, input.Key), 0)]))
-//@   ensures[C01] forall k string :: {t.Data[k]} k != nth(old(t.KeySchema.GetKey(t.AttributesDef, input.Key)), 0) ==> t.Data[k] == old(t.Data[k])
-//@   loop 1:
-//@     invariant TInv0(t) && IOwn(t)
-//@     invariant forall n string :: {t.Indexes[n]} n in t.Indexes ==> arr(t.Indexes[n].sortedKeys) == old(arr(t.Indexes[n].sortedKeys)) || fresh(arr(t.Indexes[n].sortedKeys))
-
-//@ func (*Table).Update
-//@   requires TInv0(t) && IOwn(t) && input != nil && allocated(input) && allocated(input.Key)
-//@   modifies t.SortedKeys, t.Data[*], t.SortedKeys[*], t.Data[nth(t.KeySchema.GetKey(t.AttributesDef, input.Key), 0)][*],
-//@            forall n string :: n in t.Indexes ==> t.Indexes[n].refs[*],
-//@            forall n string :: n in t.Indexes ==> t.Indexes[n].sortedKeys,
-//@            forall n string :: n in t.Indexes ==> t.Indexes[n].sortedKeys[*]
-//@   ensures TInv0(t) && IOwn(t)
-//@   ensures[C01] result1 == nil ==> dom(t.Data) == with(old(dom(t.Data)), nth(old(t.KeySchema.GetKey(t.AttributesDef, input.Key)), 0))
-//@   ensures[C01] result1 == nil && nth(old(t.KeySchema.GetKey(t.AttributesDef, input.Key)), 0) in old(dom(t.Data)) ==>
-//@                t.Data[nth(old(t.KeySchema.GetKey(t.AttributesDef, input.Key)), 0)] == old(t.Data[nth(t.KeySchema.GetKey(t.AttributesDef, input.Key), 0)]) &&
-//@                dom(t.Data[nth(old(t.KeySchema.GetKey(t.AttributesDef, input.Key)), 0)]) ==
-//@                  updSpecDom(t.Name, input.UpdateExpression, old(dom(t.Data[nth(t.KeySchema.GetKey(t.AttributesDef, input.Key), 0)])), old(vals(t.Data[nth(t.KeySchema.GetKey(t.AttributesDef, input.Key), 0)])), input.ExpressionAttributeValues, input.ExpressionAttributeNames)
-//@   ensures[C01] result1 == nil && !(nth(old(t.KeySchema.GetKey(t.AttributesDef, input.Key)), 0) in old(dom(t.Data))) ==>
-//@                fresh(t.Data[nth(old(t.KeySchema.GetKey(t.AttributesDef, input.Key)), 0)]) &&
-//@                dom(t.Data[nth(old(t.KeySchema.GetKey(t.AttributesDef, input.Key)), 0)]) ==
-//@                  updSpecDom(t.Name, input.UpdateExpression, old(dom(input.Key)), old(vals(input.Key)), input.ExpressionAttributeValues, input.ExpressionAttributeNames)
-//@   ensures[C01] result1 == nil ==> fresh(result0) && content(result0) == content(t.Data[nth(old(t.KeySchema.GetKey(t.AttributesDef, input.Key)), 0)])
-//@   ensures[C01] forall k string :: {t.Data[k]} k != nth(old(t.KeySchema.GetKey(t.AttributesDef, input.Key)), 0) ==> t.Data[k] == old(t.Data[k])
-//@   loop 1:
-//@     invariant TInv0(t) && IOwn(t)
-//@     invariant forall n string :: {t.Indexes[n]} n in t.Indexes ==> arr(t.Indexes[n].sortedKeys) == old(arr(t.Indexes[n].sortedKeys)) || fresh(arr(t.Indexes[n].sortedKeys))
-//@     invariant nth(old(t.KeySchema.GetKey(t.AttributesDef, input.Key)), 0) in t.Data && content(item) == content(t.Data[nth(old(t.KeySchema.GetKey(t.AttributesDef, input.Key)), 0)])
+//@     invariant forall n string :: {t.Indexes[n]} n in t.Indexes ==> IWf(t.Indexes[n])
+//@     invariant forall n string :: {t.Indexes[n]} n in t.Indexes && n in visited ==> IMirror(t.Indexes[n], t)
+//@     invariant forall n string :: {t.Indexes[n]} n in t.Indexes && !(n in visited) ==> IMirrorExcept(t.Indexes[n], t, old(KeyOf(t, input.Item)))
+//@     invariant forall n string :: {t.Indexes[n]} n in t.Indexes ==> nth(t.Indexes[n].keySchema.GetKey(t.AttributesDef, item), 1) == nil
+//@     invariant input.ConditionExpression != nil && *input.ConditionExpression != "" ==>
+//@               old(CondHolds(t, input.ConditionExpression, input.ExpressionAttributeValues, input.ExpressionAttributeNames, KeyOf(t, input.Item)))
+//@     invariant nth(old(t.KeySchema.GetKey(t.AttributesDef, input.Item)), 1) == nil
